@@ -249,7 +249,7 @@ def run(ctx):
             wide.append(c)
     wide.sort(key=lambda c: json.dumps(c, sort_keys=True))
     ctx.extra["wide_behaviours"] = len(wide)
-    for v, inv in (("final", "NoFail"), ("spill", "MinSize"), ("leftid", "IdsUnique")):
+    for v, inv in (("final", "NoFail"), ("spill", "MinSize"), ("leftid", "IdsUnique"), ("empty", "NoFail")):
         ctx.model_check("mpu/MC_MPU.tla", f"MC_MPU_asfound_{v}.cfg", expect_violation=inv, timeout=600,
                         label=f"MC_MPU/asfound_{v}")
     cases.sort(key=lambda c: json.dumps(c, sort_keys=True))
